@@ -59,6 +59,25 @@ PROPS = {
         "rule": "all 78 registered DUP/POP/SWAP/ROT/YANK/YANKDUP/SHOVE/FLUSH/STACKDEPTH instructions of the nine stack types, by NAME: an exhaustive grid (depths 0..6 x 14 indices incl. negative, 0, in range, = depth, > depth, i32::MIN/MAX) plus generated states; non-trivial = the state changed; distinct = distinct request lines",
         "assumptions": [],
     },
+    "C17": {
+        "scenarios": lambda tier, q: [
+            {"name": "buf", "args": []},
+            {"name": "buf-exh", "args": []},
+            {"name": "exec", "args": ["INPUT.,OUTPUT.", "600" if tier == "quick" else "6000"]},
+        ],
+        "signature": lambda req: " ".join(req.split(" ")[1:4]) if req.startswith("( bufseq") else sig_exec(req),
+        "rule": "PushBuffer<i32>: every word of length 7 (quick) / 9 (thorough) over {push, push_force, pop, flush} for capacities 1..4 and both kinds, each followed by a probe of every observer, plus random sequences (<=500 ops, capacities 1..5, many wrap-arounds); the live items (iter) and the printed form are compared after every operation; INPUT.*/OUTPUT.* instructions by NAME on generated states with 0..3 queued messages incl. empty bodies; non-trivial = a sequence in which some operation returned an item / a transition that changed the state",
+        "exhaustive": True,
+        "assumptions": ["capacity 0 is outside the property (capacities 1..C); the three buffers of PushState have capacities 10, 3, 100"],
+    },
+    "C02": {
+        "scenarios": lambda tier, q: [
+            {"name": "run", "args": []},
+        ],
+        "signature": lambda req: "run " + (req.split(" ) ")[1].split(" ")[0] if " ) " in req else "?")[:20],
+        "rule": "RAND-free, id-free programs (token grammar incl. EXEC.Y divergence and list explosion) on generated states, eval_push_limit in {-1,0,1,2,3,5,10,40,200,m-1,m,m+1}, growth_cap in {0,1,2,3,5,8,500}: PushInterpreter::run on one state, the documented accounting by repeated step() calls on an identical second state; outcome, step count and final state compared with each other and with the model; non-trivial = at least one step executed",
+        "assumptions": ["wall-clock: the model has an abstract clock; eval_time_limit is set to 10 minutes so TimeLimitExceeded cannot occur in the scenario (runtime behaviour, not exhibited by the model)"],
+    },
     "C01": {
         "scenarios": lambda tier, q: [
             {"name": "exec", "args": ["*"]},
